@@ -42,7 +42,8 @@ InitCell(M, D) ==
            len |-> Len(D.def), al |-> IF Dyn(M, D) THEN "heap" ELSE "inline"]
      ELSE [buf |-> Zeros(D.size), len |-> 0,
            al |-> IF Dyn(M, D) THEN (IF M.cfg.ondemand THEN "null" ELSE "heap") ELSE "inline"]
-  ELSE [v |-> IF D.hasdef THEN StoreConv(Ok(D.def, "int"), D).v ELSE 0]
+  ELSE IF D.hasdef THEN StoreCell(IF D.bigdef THEN [s |-> "big", v |-> 0, t |-> "long", w |-> D.defw] ELSE Ok(D.def, "int"), D).cell
+  ELSE [v |-> 0]
 
 InitStore(M) == [n \in DOMAIN M.decl |-> InitCell(M, M.decl[n])]
 
@@ -90,8 +91,8 @@ RunActs(M, acts, i, d, ev, last, mode) ==
     CASE a.op = "hook" ->
            go(d, Append(ev, [e |-> "hook", n |-> a.name, iv |-> IF mode = "start" THEN 0 ELSE last, snap |-> d]))
       [] a.op = "set" ->
-           LET x == StoreConv(Eval(a.expr, env), M.decl[a.var]) IN
-           IF x.s # "ok" THEN AR(d, ev, x.s, "set " \o a.var) ELSE go([d EXCEPT ![a.var] = [v |-> x.v]], ev)
+           LET x == StoreCell(EvalC(a.expr, env), M.decl[a.var]) IN
+           IF x.s # "ok" THEN AR(d, ev, x.s, "set " \o a.var) ELSE go([d EXCEPT ![a.var] = x.cell], ev)
       [] a.op = "setstr" ->
            LET D == M.decl[a.var]
                c0 == OnDemand(M, D, d[a.var], FALSE)
@@ -113,12 +114,12 @@ RunActs(M, acts, i, d, ev, last, mode) ==
            LET r == AppendByte(M, d, a.var, last, a.ovf, ev) IN
            IF r.k = "next" THEN go(r.d, ev) ELSE r
       [] a.op = "appendc" ->
-           LET x == Eval(a.expr, env) IN
-           IF x.s # "ok" THEN
+           LET x == EvalC(a.expr, env) IN
+           IF x.s \notin {"ok", "big"} THEN
               \* the capacity test precedes evaluation in the emitted code
               (LET D == M.decl[a.var] c0 == OnDemand(M, D, d[a.var], TRUE) IN
                IF c0.len = Cap(D) THEN AR([d EXCEPT ![a.var] = c0], ev, "ovf", a.ovf) ELSE AR(d, ev, x.s, "appendc " \o a.var))
-           ELSE LET r == AppendByte(M, d, a.var, x.v, a.ovf, ev) IN
+           ELSE LET r == AppendByte(M, d, a.var, LowByte(x), a.ovf, ev) IN
                 IF r.k = "next" THEN go(r.d, ev) ELSE r
       [] a.op = "finish" -> AR(d, ev, "ret", IF a.code = "" THEN "DONE" ELSE "FINISH_" \o a.code)
       [] a.op = "yield"  -> AR(d, ev, "yld", "YIELD_" \o a.code)
@@ -132,7 +133,7 @@ RunActs(M, acts, i, d, ev, last, mode) ==
 CondVal(M, c, d, last) ==
   CASE c.k = "else" -> Ok(1, "int")
     [] c.k = "const" -> Ok(IF c.v THEN 1 ELSE 0, "int")
-    [] c.k = "expr" -> Eval(c.e, Env(M, d, last))
+    [] c.k = "expr" -> LET x == EvalC(c.e, Env(M, d, last)) IN IF x.s = "big" THEN Ok(1, "int") ELSE x
 
 RunBranches(M, bs, j, d, ev, last, mode) ==
   IF j > Len(bs) THEN AR(d, ev, "next", 0)
@@ -230,7 +231,7 @@ StartStep(M) ==
 FreeStore(M, d) == [n \in DOMAIN d |-> IF Dyn(M, M.decl[n]) THEN [d[n] EXCEPT !.al = "null", !.buf = Zeros(M.decl[n].size)] ELSE d[n]]
 
 \* ---------------- what the API exposes of a store: values, string contents up to their length ----------------
-ObsCell(cell) == IF "v" \in DOMAIN cell THEN [v |-> cell.v] ELSE [s |-> SubSeq(cell.buf, 1, cell.len), len |-> cell.len]
+ObsCell(cell) == IF "v" \in DOMAIN cell THEN [v |-> cell.v] ELSE IF "w" \in DOMAIN cell THEN [w |-> cell.w] ELSE [s |-> SubSeq(cell.buf, 1, cell.len), len |-> cell.len]
 Obs(d) == [n \in DOMAIN d |-> ObsCell(d[n])]
 
 \* ---------------- invariants over a store (C03, capacity contract) ----------------
